@@ -190,6 +190,17 @@ def aimed_shapes():
     out.append(('struct(float,int)[2]', S(A(S(sc('float'), sc('int')), 2))))
     out.append(('struct(struct(float),int)[2]', S(A(S(S(sc('float')), sc('int')), 2))))
     out.append(('struct(int,struct(float))[2]', S(A(S(sc('int'), S(sc('float'))), 2))))
+    # a member aggregate that starts inside the first eightbyte and ends in the second
+    for a in ('int', 'float'):
+        for b, c in (('float', 'float'), ('float', 'int'), ('int', 'float'), ('int', 'int')):
+            out.append(('%s+struct(%s,%s)' % (a, b, c), S(sc(a), S(sc(b), sc(c)))))
+            out.append(('%s+%s[2]-in-struct' % (a, c), S(sc(a), S(A(sc(c), 2)))))
+            out.append(('%s+struct(%s)[2]' % (a, c), S(sc(a), A(S(sc(c)), 2))))
+            out.append(('%s+struct(%s,struct(%s))' % (a, b, c), S(sc(a), S(sc(b), S(sc(c))))))
+            out.append(('%s+union{struct(%s,%s);%s}' % (a, b, c, b), S(sc(a), U(S(sc(b), sc(c)), sc(b)))))
+            out.append(('%s+anon-struct(%s,%s)' % (a, b, c), S(sc(a), anon(S(sc(b), sc(c))))))
+    out.append(('short+struct(short,float,float)', S(sc('short'), S(sc('short'), sc('float'), sc('float')))))
+    out.append(('float+struct(float,short,char)', S(sc('float'), S(sc('float'), sc('short'), sc('char')))))
     # overlaps in unions
     for x, y in (('long', 'double'), ('double', 'long'), ('int', 'float'), ('float', 'int'), ('double', 'double'), ('long', 'long')):
         for wn, w in wrappers(y)[:6]:
@@ -212,7 +223,12 @@ def aimed_shapes():
     # memory class with the same inner shapes (nothing may reach a register)
     out.append(('long,int+struct(float),double', S(sc('long'), sc('int'), S(sc('float')), sc('double'))))
     out.append(('struct(int,struct(float))[3]', S(A(S(sc('int'), S(sc('float'))), 3))))
-    return [(d, t) for d, t in out if blk_type(t) is not None]
+    seen, res = set(), []
+    for d, t in out:
+        if blk_type(t) is not None and ctext(t) not in seen:
+            seen.add(ctext(t))
+            res.append((d, t))
+    return res
 
 
 # ---------------------------------------------------------------- random shapes
